@@ -12,6 +12,8 @@ package main
 // plus a few fixed witnesses of DESIGN Appendix A.
 
 import (
+	"fmt"
+	"os"
 	"strings"
 
 	"verifharness/hx"
@@ -404,4 +406,43 @@ func seiCorrCases(seed uint64, n int) []tcase {
 		cs = append(cs, tcase{name, in, arg()})
 	}
 	return cs
+}
+
+// byteStreamFile: an Annex B byte stream made of hostile units, for the built command line tools.
+func byteStreamFile(r *hx.Rng, codec string) []byte {
+	if r.Intn(12) == 0 {
+		return mutate(r, hx.UnHex(byteStreamSeeds[r.Intn(len(byteStreamSeeds))]))
+	}
+	kinds := []string{".ParseSPSNALUnit", ".ParsePPSNALUnit", ".ParseSliceHeader", ".ParseSEINalu", ".ParseSPSNALUnit", ".ParsePPSNALUnit"}
+	var out []byte
+	k := r.Range(1, 6)
+	for i := 0; i < k; i++ {
+		if r.Bool() {
+			out = append(out, 0)
+		}
+		out = append(out, 0, 0, 1)
+		if r.Intn(10) == 0 {
+			continue // empty unit
+		}
+		kind := kinds[i%len(kinds)]
+		if r.Intn(3) == 0 {
+			kind = kinds[r.Intn(len(kinds))]
+		}
+		out = append(out, genUnit(r, codec+kind)...)
+	}
+	return out
+}
+
+func writeFiles(seed uint64, n int, dir string) {
+	r := hx.NewRng(seed)
+	for i := 0; i < n; i++ {
+		codec := "avc"
+		if i%2 == 1 {
+			codec = "hevc"
+		}
+		name := fmt.Sprintf("%s/%s_%05d.bin", dir, codec, i)
+		if err := os.WriteFile(name, byteStreamFile(r, codec), 0o644); err != nil {
+			fatal("write %s: %v", name, err)
+		}
+	}
 }
